@@ -359,3 +359,19 @@ func J(v any) string {
 	}
 	return string(b)
 }
+
+// Parallel runs fn(0..n-1) on at most workers goroutines.
+func (r *Run) Parallel(n, workers int, fn func(i int)) {
+	var wg sync.WaitGroup
+	sem := make(chan struct{}, workers)
+	for i := 0; i < n; i++ {
+		wg.Add(1)
+		sem <- struct{}{}
+		go func(i int) {
+			defer wg.Done()
+			defer func() { <-sem }()
+			fn(i)
+		}(i)
+	}
+	wg.Wait()
+}
